@@ -121,7 +121,7 @@ def runtime_half(ctx, drv, accepted):
                 r = interp.run(res["out"], {k: v[:1] for k, v in data.items()})
                 ctx.interp_runs += 1
                 if r[0] != "ok":
-                    fail(f"the interpreter does not run the model: {r[0]} {str(r[1])[:160]}", f"accepted-then-rejected-by-runtime:{o}")
+                    fail(f"the interpreter does not run the model: {r[0]} {str(r[1])[:160]}", f"accepted-then-rejected-by-runtime:{o}:" + pl.interp_err_class(r))
                     continue
                 fnum.compare_float_modes(ctx, interp, case, res, fail)
                 fnum.compare_static(ctx, interp, case, res, fail)
